@@ -68,8 +68,8 @@ type ConcResult struct {
 	Stale      []string       `json:"stale"`
 	NilRec     bool           `json:"nilRec"`
 	Infra      string         `json:"infra,omitempty"`
-	Edges      []string       `json:"edges,omitempty"`
-	GraphInit  string         `json:"graphInit,omitempty"`
+	GraphStates []string      `json:"graphStates,omitempty"`
+	graph      map[string]bool
 }
 
 type concRunner struct {
@@ -112,7 +112,7 @@ func newConcRunner(e *Entry, job *ConcJob) *concRunner {
 		}
 	}
 	r.nilRec, _ = probeNilRec(e)
-	r.res = &ConcResult{Mock: job.Mock, Scenario: job.Scenario, Histories: map[string]int{}, NilRec: r.nilRec}
+	r.res = &ConcResult{Mock: job.Mock, Scenario: job.Scenario, Histories: map[string]int{}, NilRec: r.nilRec, graph: map[string]bool{}}
 	return r
 }
 
@@ -513,9 +513,11 @@ func (r *concRunner) runOnce(choices []int, visited map[string]bool, byID []int)
 		return nil, false, err
 	}
 	s := r.s
-	prevKey := ""
 	for step := 0; ; step++ {
 		s.checkRaces()
+		if r.job.Graph {
+			r.res.graph[r.projection()] = true
+		}
 		var en []*G
 		alldone := true
 		for _, g := range s.gs {
@@ -555,11 +557,8 @@ func (r *concRunner) runOnce(choices []int, visited map[string]bool, byID []int)
 			return ns, false, nil
 		}
 		var key string
-		if visited != nil || r.job.Graph {
+		if visited != nil {
 			key = s.stateKey()
-		}
-		if r.job.Graph && prevKey != "" {
-			// edge recorded below, after the choice, needs the successor: handled by caller via events
 		}
 		if visited != nil && step >= len(choices) && byID == nil {
 			if visited[key] {
@@ -568,7 +567,6 @@ func (r *concRunner) runOnce(choices []int, visited map[string]bool, byID []int)
 			}
 			visited[key] = true
 		}
-		prevKey = key
 		var g *G
 		switch {
 		case byID != nil:
@@ -707,6 +705,10 @@ func runConc(job *ConcJob) *ConcResult {
 		}
 	}
 	res.States = len(visited)
+	for k := range res.graph {
+		res.GraphStates = append(res.GraphStates, k)
+	}
+	sort.Strings(res.GraphStates)
 	if !res.Exhaustive {
 		// continue with random schedules from the seed
 		rng := rand.New(rand.NewSource(job.Seed))
@@ -781,4 +783,64 @@ func init() {
 			return runConc(&j)
 		})
 	}
+}
+
+// projection is the abstract state compared with MockImpl's: recorded ids,
+// lock state per mapped method, position of every goroutine in its
+// straight-line gate program, flags. Canonical text, see rt.canonState.
+func (r *concRunner) projection() string {
+	var b strings.Builder
+	abs := []string{}
+	for a := range r.amap {
+		abs = append(abs, a)
+	}
+	sort.Strings(abs)
+	for _, a := range abs {
+		x := r.amap[a]
+		fmt.Fprintf(&b, "%s=[", a)
+		if f, ok := r.callsField(x); ok {
+			for i, rec := range recordsFP(f) {
+				if i > 0 {
+					b.WriteString(",")
+				}
+				if id, ok := r.fpID[x][recKey(rec)]; ok && !r.anon[x] {
+					fmt.Fprintf(&b, "%d", id)
+				} else {
+					b.WriteString("?")
+				}
+			}
+		} else {
+			b.WriteString("!")
+		}
+		w, an := 0, 0
+		rd := make([]int, len(r.s.gs))
+		for _, l := range r.s.locks {
+			if l.name != "lock"+a {
+				continue
+			}
+			if l.writer != nil {
+				w = l.writer.id
+			}
+			if l.announced != nil {
+				an = l.announced.id
+			}
+			for g, c := range l.readers {
+				rd[g.id-1] = c
+			}
+		}
+		fmt.Fprintf(&b, "] w%d a%d r%v; ", w, an, rd)
+	}
+	b.WriteString("pos=")
+	for _, g := range r.s.gs {
+		fmt.Fprintf(&b, "%d,", g.passed+1)
+	}
+	fl := []string{}
+	for f, v := range r.s.flags {
+		if v {
+			fl = append(fl, f)
+		}
+	}
+	sort.Strings(fl)
+	b.WriteString(" flags=" + strings.Join(fl, ","))
+	return b.String()
 }
